@@ -90,6 +90,8 @@ def render_operand(op, at):
         at.append("\\value{%s}" % op["c"])
     elif k == "num":
         at.append("\\" + op["n"])
+    elif k == "reg":
+        at.append("\\" + op["r"])
     elif k == "dim":
         at.append(op["s"])
     else:  # pragma: no cover
@@ -164,6 +166,8 @@ def render_nodes(nodes, at):
                 at.append("\\addtocounter{%s}{%d}" % (n["c"], n["v"]))
             else:
                 at.append("\\stepcounter{%s}" % n["c"])
+        elif k == "setr":
+            at.append("\\%s=%d\\relax" % (n["r"], n["v"]))
         elif k == "defnum":
             at.append("\\def\\%s{%d}" % (n["n"], n["v"]))
         elif k == "defx":
@@ -205,6 +209,9 @@ def render(case):
         at.append("\\def\\gq%s{}" % p)
     for c, v in sorted(case["counters"].items()):
         at.append("\\newcounter{%s}\\setcounter{%s}{%d}" % (c, c, v))
+    for r, v in sorted(case.get("regs", {}).items()):
+        at.append("\\newcount\\%s" % r)
+        at.append("\\%s=%d\\relax" % (r, v))
     for n, v in sorted(case["nums"].items()):
         at.append("\\def\\%s{%d}" % (n, v))
     for n, b in sorted(case["xmacs"].items()):
@@ -251,6 +258,7 @@ class Predictor(object):
         self.steps = dict((p, 0) for p in self.probes)
         self.gdefs = set()
         self.counters = dict(case["counters"])
+        self.regs = dict(case.get("regs", {}))
         self.scope = Scope(case["nums"], case["xmacs"], case["switches"])
         self.macros = dict((d["n"], d) for d in case["macros"])
         self.taken = []          # ids of the if nodes evaluated, with the selected arm
@@ -264,6 +272,8 @@ class Predictor(object):
             return op["v"]
         if k == "value":
             return self.counters[op["c"]]
+        if k == "reg":
+            return self.regs[op["r"]]
         if k == "num":
             return self.scope.top["num"][op["n"]]
         raise ValueError(k)
@@ -343,6 +353,8 @@ class Predictor(object):
                     self.counters[n["c"]] += n["v"]
                 else:
                     self.counters[n["c"]] += 1
+            elif k == "setr":
+                self.regs[n["r"]] = n["v"]
             elif k == "defnum":
                 self.scope.top["num"][n["n"]] = n["v"]
             elif k == "defx":
@@ -427,6 +439,9 @@ class Gen(object):
         if r <= 3 and self.nums:
             self.features.add("operand-macro-number")
             return {"k": "num", "n": self.pick(sorted(self.nums))}
+        if r == 4 and self.regs:
+            self.features.add("operand-count-register")
+            return {"k": "reg", "r": self.pick(sorted(self.regs))}
         if v is None:
             v = self.small_int()
         return self.int_literal(v)
@@ -526,6 +541,8 @@ class Gen(object):
             r = 9
         if r <= 1 and self.counters:
             return {"k": "ifcase", "a": {"k": "value", "c": self.pick(sorted(self.counters))}}
+        if r == 2 and self.regs:
+            return {"k": "ifcase", "a": {"k": "reg", "r": self.pick(sorted(self.regs))}}
         if r <= 2 and self.nums:
             return {"k": "ifcase", "a": {"k": "num", "n": self.pick(sorted(self.nums))}}
         v = self.i(lo, hi)
@@ -598,6 +615,10 @@ class Gen(object):
                 op = self.pick(["set", "add", "step"])
                 out.append({"k": "setc", "c": self.pick(sorted(self.counters)), "op": op,
                             "v": self.i(-3, 6)})
+            elif r == 12 and self.regs and self.p(5) and ctx["groups"] == 0 and not ctx["in_macro"] \
+                    and not ctx.get("in_arg") and depth == 0:
+                out.append({"k": "setr", "r": self.pick(sorted(self.regs)), "v": self.small_int()})
+                self.features.add("count-register-assignment")
             elif r == 12 and self.nums:
                 out.append({"k": "defnum", "n": self.pick(sorted(self.nums)), "v": self.small_int()})
             elif r == 13:
@@ -641,6 +662,8 @@ class Gen(object):
     def build(self):
         self.counters = dict(("c" + letters(i), self.i(-2, 5)) for i in range(self.i(0, 2)))
         self.nums = dict(("n" + letters(i), self.small_int()) for i in range(self.i(0, 2)))
+        # plain TeX count registers (\\newcount), assigned with the primitive syntax \\ra=5\\relax
+        self.regs = dict(("r" + letters(i), self.small_int()) for i in range(self.i(0, 2)))
         self.xnames = ["xa", "xb", "xc", "xd"]
         ndef = self.i(1, 3)
         self.xmacs = dict((n, self.pick(XBODIES)) for n in self.xnames[:ndef])
@@ -658,7 +681,7 @@ class Gen(object):
         body = self.nodes(0, ctx, self.i(1, 4))
         if self.nifs == 0:
             body.append(self.cond(0, ctx))
-        return {"counters": self.counters, "nums": self.nums,
+        return {"counters": self.counters, "regs": self.regs, "nums": self.nums,
                 "xmacs": self.xmacs, "switches": self.switches, "macros": self.macros, "body": body,
                 "features": sorted(self.features), "excluded": self.excluded}
 
